@@ -1,16 +1,16 @@
 SPECIFICATION Spec
 CONSTANTS
   Writers <- W2
-  Subs <- S2
+  Subs <- S1
   Ids <- I1
   MaxV = 6
-  Programs <- SubValPrograms
-  SubKinds <- KindsMask
-  InitStores <- ValStores
+  Programs <- IncPrograms
+  SubKinds <- KindsInc
+  InitStores <- IncStores
   PublishAfterUnlock = FALSE
   CreatedRevalidated = TRUE
   DeleteHoldsLock = TRUE
-  DeleteRechecks = TRUE
+  DeleteRechecks = FALSE
   Equiv = "none"
   SubSer = FALSE
   MayCancel = FALSE
